@@ -332,6 +332,8 @@ pub enum Child {
     Done(Value),
     Crashed(String),
     TimedOut,
+    /// the child could not be started at all (not a verdict)
+    Machinery(String),
 }
 
 pub fn run_child(args: &[String], timeout: std::time::Duration) -> Child {
@@ -350,7 +352,8 @@ pub fn run_exe(exe: &std::path::Path, args: &[String], timeout: std::time::Durat
     cmd.stderr(std::process::Stdio::piped());
     let mut ch = match cmd.spawn() {
         Ok(c) => c,
-        Err(e) => return Child::Crashed(format!("cannot spawn child: {e}")),
+        // the harness binary itself is missing / not executable: machinery
+        Err(e) => return Child::Machinery(format!("cannot spawn {}: {e}", exe.display())),
     };
     let mut so = ch.stdout.take().unwrap();
     let mut se = ch.stderr.take().unwrap();
@@ -422,6 +425,10 @@ pub fn explore_isolated(
                 replay: json!({"check": check, "thorough": thorough,
                     "scenario_index": idx, "schedule": []}),
             });
+            None
+        }
+        Child::Machinery(m) => {
+            rep.machinery_errors.push(m);
             None
         }
         Child::TimedOut => {
